@@ -57,9 +57,8 @@ def bcLoop : List Int → List Int → List Int → Res (List Int)
     used (here always `maxDims ≥ len(destShape)`) -/
 def broadcastStrides (dest src : Shape) (nDest : Nat) (srcStrides : List Int) : Res (List Int) :=
   if isVector dest && isVector src then
-    match srcStrides with
-    | s0 :: _ => pure [s0]
-    | [] => throwPanic "srcStrides[0]: index out of range"
+    -- two vectors: a copy of the source's own strides
+    pure srcStrides
   else if dest.length < src.length then throwErr "dimension mismatch"
   else if nDest < dest.length then throwPanic "retVal: index out of range"
   else do
